@@ -263,6 +263,11 @@ func catalogue() []geom.Geom {
 		geom.MultiLineString{{{X: 0, Y: 0}, {X: 100, Y: 0}}, {{X: 200, Y: 0}, {X: 300, Y: 0}, {X: 300, Y: 100}}, {{X: 0, Y: 200}, {X: 100, Y: 210}}},
 		geom.MultiLineString{{{X: 0, Y: 0}, {X: 100, Y: 0}}},
 		pAxis, pGen, pOpen, pOpenMinLast,
+		// the same member twice (identical members need not be apart)
+		geom.MultiLineString{{{X: 0, Y: 0}, {X: 100, Y: 0}}, {{X: 0, Y: 0}, {X: 100, Y: 0}}, {{X: 200, Y: 0}, {X: 300, Y: 0}, {X: 300, Y: 100}}},
+		geom.MultiLineString{{{X: 0, Y: 0}, {X: 100, Y: 0}}, {{X: 0, Y: 0}, {X: 100, Y: 0}}},
+		geom.GeometryCollection{geom.Point{X: 3, Y: 4}, geom.LineString{{X: 50, Y: 0}, {X: 150, Y: 0}}, geom.Point{X: 3, Y: 4}, geom.LineString{{X: 50, Y: 0}, {X: 150, Y: 0}}},
+		geom.MultiPolygon{geom.Polygon{gen(0, 0)}, geom.Polygon{gen(0, 0)}, shift(geom.Polygon{gen(0, 0)}, 2000)},
 		// many members (40 lines, 33 polygons, 64 points in a collection)
 		func() geom.Geom {
 			var o geom.MultiLineString
@@ -548,7 +553,7 @@ func main() {
 		return
 	}
 	rep = report.New("C15", tier, "model_checking")
-	rep.Rule = "E1: 25 base geometries of all eight types (axis-aligned and general-position rings, closed and unclosed, a ring visiting one vertex twice, sliver rings thinner than the tolerance, multi-geometries of 33..64 members, nested collections, empty geometries) whose members are >= 90 apart, tol in {1e-3, 0.1}, and the same geometries shifted by (2e7,-3e7) with tol 1e-9 (below the float spacing there); for each every derived h: identity; all coordinates perturbed by +-tol/2 in 6 sign patterns (expected true); every permutation of members combined with perturbation (true); every start rotation of closed rings (true); every single coordinate displaced by 2*tol, incl. the closing vertex of a closed ring on its own (false); every member deleted / duplicated at every position (false); every line / line member reversed (false); change of type with identical vertices (false); and, for containers, every such derivation applied to every member with the other members unchanged (nested to depth 2: rings permuted inside a multi-polygon member, members of a nested collection, ...). Every pair is evaluated in both directions (symmetry), and again twice with both operands cut from flat vertex buffers (same answers, buffers not written). Non-trivial = every derivation other than identity."
+	rep.Rule = "E1: 29 base geometries of all eight types (axis-aligned and general-position rings, closed and unclosed, a ring visiting one vertex twice, sliver rings thinner than the tolerance, multi-geometries of 33..64 members, multi-geometries holding the same member twice, nested collections, empty geometries) whose members are >= 90 apart, tol in {1e-3, 0.1}, and the same geometries shifted by (2e7,-3e7) with tol 1e-9 (below the float spacing there); for each every derived h: identity; all coordinates perturbed by +-tol/2 in 6 sign patterns (expected true); every permutation of members combined with perturbation (true); every start rotation of closed rings (true); every single coordinate displaced by 2*tol, incl. the closing vertex of a closed ring on its own (false); every member deleted / duplicated at every position (false); every line / line member reversed (false); change of type with identical vertices (false); and, for containers, every such derivation applied to every member with the other members unchanged (nested to depth 2: rings permuted inside a multi-polygon member, members of a nested collection, ...). Every pair is evaluated in both directions (symmetry), and again twice with both operands cut from flat vertex buffers (same answers, buffers not written). Non-trivial = every derivation other than identity."
 	cat := catalogue()
 	if tier == "thorough" {
 		cat = append(cat, generated()...)
